@@ -101,8 +101,9 @@ def d8_2(ctx):
                 continue
             probs = wrap_problems(fn.node, _spec(name == "decode"))
             if probs:
-                for node, why in probs:
-                    ctx.violation(ckey(fn), node, why, stmt=src(node).splitlines()[0][:100])
+                node, why = probs[0]
+                ctx.violation(ckey(fn), node, f"{why} ({len(probs)} uncontained statement(s))",
+                              statements=[f"{getattr(n, 'lineno', '?')}: {src(n).splitlines()[0][:70]}" for n, _ in probs[:12]])
             else:
                 ctx.ok(ckey(fn), fn.node, "override contained like the base wrapper")
             if name == "decode":
